@@ -1,6 +1,278 @@
 import GambitV.Model.F32
+import Mathlib.Algebra.Order.Field.Rat
+import Mathlib.Algebra.Order.Field.Basic
+import Mathlib.Algebra.Order.Field.Power
+import Mathlib.Data.Nat.Cast.Order.Ring
+import Mathlib.Tactic.Linarith
+import Mathlib.Tactic.Positivity
+import Mathlib.Tactic.Ring
+import Mathlib.Tactic.FieldSimp
 
 /-! Helper lemmas about the binary32 model (`Model/F32.lean`). -/
 namespace GambitV.F32
+
+/-! ### F1. `ratExp num den = ⌊log₂ (num/den)⌋` -/
+
+theorem two_zpow_pos (e : ℤ) : (0 : ℚ) < 2 ^ e := zpow_pos (by norm_num) e
+
+/-- F1 (existence): `den * 2^e ≤ num < den * 2^(e+1)` for `e = ratExp num den`. -/
+theorem ratExp_spec {num den : ℕ} (hn : 0 < num) (hd : 0 < den) :
+    (den : ℚ) * 2 ^ (ratExp num den) ≤ num ∧ (num : ℚ) < den * 2 ^ (ratExp num den + 1) := by
+  have h2 : (2 : ℚ) ≠ 0 := by norm_num
+  have hln1 : 2 ^ num.log2 ≤ num := Nat.log2_self_le (by omega)
+  have hln2 : num < 2 ^ (num.log2 + 1) := Nat.lt_log2_self
+  have hld1 : 2 ^ den.log2 ≤ den := Nat.log2_self_le (by omega)
+  have hld2 : den < 2 ^ (den.log2 + 1) := Nat.lt_log2_self
+  have qln1 : (2 : ℚ) ^ num.log2 ≤ num := by exact_mod_cast hln1
+  have qln2 : (num : ℚ) < 2 ^ (num.log2 + 1) := by exact_mod_cast hln2
+  have qld1 : (2 : ℚ) ^ den.log2 ≤ den := by exact_mod_cast hld1
+  have qld2 : (den : ℚ) < 2 ^ (den.log2 + 1) := by exact_mod_cast hld2
+  have pn : (0 : ℚ) < 2 ^ num.log2 := by positivity
+  have pd : (0 : ℚ) < 2 ^ den.log2 := by positivity
+  have hnq : (0 : ℚ) < num := by exact_mod_cast hn
+  have hdq : (0 : ℚ) < den := by exact_mod_cast hd
+  unfold ratExp
+  simp only []
+  split
+  · next hc =>
+    have hcq : (den : ℚ) * 2 ^ num.log2 ≤ num * 2 ^ den.log2 := by exact_mod_cast hc
+    have e1 : (2 : ℚ) ^ ((num.log2 : ℤ) - (den.log2 : ℤ)) = 2 ^ num.log2 / 2 ^ den.log2 := by
+      rw [zpow_sub₀ h2, zpow_natCast, zpow_natCast]
+    have e2 : (2 : ℚ) ^ ((num.log2 : ℤ) - (den.log2 : ℤ) + 1) = 2 ^ num.log2 * 2 / 2 ^ den.log2 := by
+      rw [zpow_add_one₀ h2, e1, div_mul_eq_mul_div]
+    rw [e1, e2]
+    constructor
+    · rw [← mul_div_assoc, div_le_iff₀ pd]; exact hcq
+    · rw [← mul_div_assoc, lt_div_iff₀ pd]
+      have : (num : ℚ) * 2 ^ den.log2 < 2 ^ (num.log2 + 1) * 2 ^ den.log2 :=
+        mul_lt_mul_of_pos_right qln2 pd
+      have h3 : (2 : ℚ) ^ (num.log2 + 1) * 2 ^ den.log2 ≤ den * (2 ^ num.log2 * 2) := by
+        rw [pow_succ]; nlinarith
+      linarith
+  · next hc =>
+    have hc' : num * 2 ^ den.log2 < den * 2 ^ num.log2 := Nat.lt_of_not_ge hc
+    have hcq : (num : ℚ) * 2 ^ den.log2 < den * 2 ^ num.log2 := by exact_mod_cast hc'
+    have e1 : (2 : ℚ) ^ ((num.log2 : ℤ) - (den.log2 : ℤ) - 1 + 1)
+        = 2 ^ num.log2 / 2 ^ den.log2 := by
+      rw [sub_add_cancel, zpow_sub₀ h2, zpow_natCast, zpow_natCast]
+    have e2 : (2 : ℚ) ^ ((num.log2 : ℤ) - (den.log2 : ℤ) - 1)
+        = 2 ^ num.log2 / 2 ^ den.log2 / 2 := by
+      rw [zpow_sub₀ h2, zpow_sub₀ h2, zpow_natCast, zpow_natCast, zpow_one]
+    rw [e1, e2]
+    constructor
+    · rw [← mul_div_assoc, ← mul_div_assoc, div_le_iff₀ (by norm_num : (0 : ℚ) < 2),
+        div_le_iff₀ pd]
+      have h3 : (den : ℚ) * 2 ^ num.log2 ≤ 2 ^ (den.log2 + 1) * 2 ^ num.log2 :=
+        mul_le_mul_of_nonneg_right (le_of_lt qld2) (le_of_lt pn)
+      have h4 : (2 : ℚ) ^ (den.log2 + 1) * 2 ^ num.log2 ≤ num * 2 * 2 ^ den.log2 := by
+        rw [pow_succ]; nlinarith
+      linarith
+    · rw [← mul_div_assoc, lt_div_iff₀ pd]; exact hcq
+
+/-- F1 (uniqueness). -/
+theorem ratExp_unique {num den : ℕ} (hn : 0 < num) (hd : 0 < den) (e : ℤ)
+    (h1 : (den : ℚ) * 2 ^ e ≤ num) (h2 : (num : ℚ) < den * 2 ^ (e + 1)) :
+    ratExp num den = e := by
+  obtain ⟨s1, s2⟩ := ratExp_spec hn hd
+  have hdq : (0 : ℚ) < den := by exact_mod_cast hd
+  have a1 : (den : ℚ) * 2 ^ e < den * 2 ^ (ratExp num den + 1) := lt_of_le_of_lt h1 s2
+  have a2 : (den : ℚ) * 2 ^ (ratExp num den) < den * 2 ^ (e + 1) := lt_of_le_of_lt s1 h2
+  have b1 := lt_of_mul_lt_mul_left a1 (le_of_lt hdq)
+  have b2 := lt_of_mul_lt_mul_left a2 (le_of_lt hdq)
+  rw [zpow_lt_zpow_iff_right₀ (by norm_num : (1 : ℚ) < 2)] at b1 b2
+  omega
+
+/-- F1 (corollary): the exponent only depends on the ratio. -/
+theorem ratExp_scale {c num den : ℕ} (hc : 0 < c) (hn : 0 < num) (hd : 0 < den) :
+    ratExp (c * num) (c * den) = ratExp num den := by
+  obtain ⟨s1, s2⟩ := ratExp_spec hn hd
+  have hcq : (0 : ℚ) < c := by exact_mod_cast hc
+  apply ratExp_unique (Nat.mul_pos hc hn) (Nat.mul_pos hc hd)
+  · push_cast; rw [mul_assoc]; exact mul_le_mul_of_nonneg_left s1 (le_of_lt hcq)
+  · push_cast; rw [mul_assoc]; exact mul_lt_mul_of_pos_left s2 hcq
+
+/-! ### F2. Structure of `roundRat`; it only depends on the ratio -/
+
+/-- Scaled numerator: `num * 2^(23-e)` when `23 - e ≥ 0`. -/
+def scN (num : ℕ) (e : ℤ) : ℕ := if 23 - e ≥ 0 then num * 2 ^ (23 - e).toNat else num
+/-- Scaled denominator: `den * 2^(e-23)` when `23 - e < 0`. -/
+def scD (den : ℕ) (e : ℤ) : ℕ := if 23 - e ≥ 0 then den else den * 2 ^ (-(23 - e)).toNat
+
+/-- Quotient `n/d` rounded to the nearest integer, ties to even. -/
+def rnd (n d : ℕ) : ℕ :=
+  if 2 * (n % d) > d ∨ (2 * (n % d) = d ∧ n / d % 2 = 1) then n / d + 1 else n / d
+
+/-- Assemble the bit pattern from a 24-bit significand `q` (or `2^24` after a carry) and the
+unbiased exponent `e`. -/
+def pack (q : ℕ) (e : ℤ) : UInt32 :=
+  let e' := if q = 2 ^ 24 then e + 1 else e
+  let q' := if q = 2 ^ 24 then 2 ^ 23 else q
+  if e' + 127 ≤ 0 ∨ e' + 127 ≥ 255 then nanBits
+  else UInt32.ofNat ((e' + 127).toNat * 2 ^ 23 + (q' - 2 ^ 23))
+
+theorem roundRat_eq (num den : ℕ) :
+    roundRat num den =
+      if num = 0 ∨ den = 0 then zeroBits
+      else pack (rnd (scN num (ratExp num den)) (scD den (ratExp num den))) (ratExp num den) := rfl
+
+theorem roundRat_zero_left (den : ℕ) : roundRat 0 den = 0 := by
+  simp [roundRat_eq, zeroBits]
+
+theorem roundRat_of_pos {num den : ℕ} (hn : 0 < num) (hd : 0 < den) :
+    roundRat num den =
+      pack (rnd (scN num (ratExp num den)) (scD den (ratExp num den))) (ratExp num den) := by
+  rw [roundRat_eq, if_neg (by omega)]
+
+theorem scN_scale (c num : ℕ) (e : ℤ) : scN (c * num) e = c * scN num e := by
+  unfold scN; split
+  · rw [Nat.mul_assoc]
+  · rfl
+
+theorem scD_scale (c den : ℕ) (e : ℤ) : scD (c * den) e = c * scD den e := by
+  unfold scD; split
+  · rfl
+  · rw [Nat.mul_assoc]
+
+theorem rnd_scale {c : ℕ} (hc : 0 < c) (n d : ℕ) : rnd (c * n) (c * d) = rnd n d := by
+  unfold rnd
+  rw [Nat.mul_mod_mul_left, Nat.mul_div_mul_left _ _ hc]
+  have h1 : 2 * (c * (n % d)) > c * d ↔ 2 * (n % d) > d := by
+    rw [Nat.mul_left_comm]; exact Nat.mul_lt_mul_left hc
+  have h2 : 2 * (c * (n % d)) = c * d ↔ 2 * (n % d) = d := by
+    rw [Nat.mul_left_comm]; exact Nat.mul_right_inj (by omega)
+  simp only [h1, h2]
+
+/-- F2. `roundRat` is a function of the ratio `num/den`. -/
+theorem roundRat_scale {c : ℕ} (hc : 0 < c) (num den : ℕ) :
+    roundRat (c * num) (c * den) = roundRat num den := by
+  by_cases h : num = 0 ∨ den = 0
+  · have h' : c * num = 0 ∨ c * den = 0 := by
+      rcases h with h | h
+      · left; rw [h]; rfl
+      · right; rw [h]; rfl
+    rw [roundRat_eq, roundRat_eq, if_pos h, if_pos h']
+  · have hn : 0 < num := by omega
+    have hd : 0 < den := by omega
+    rw [roundRat_of_pos hn hd, roundRat_of_pos (Nat.mul_pos hc hn) (Nat.mul_pos hc hd),
+      ratExp_scale hc hn hd, scN_scale, scD_scale, rnd_scale hc]
+
+/-! ### F3. Decoding packed values; exact conversion of integers below `2^24` -/
+
+theorem log2_one : Nat.log2 1 = 0 := by decide
+
+theorem ratExp_one {n : ℕ} (hn : 0 < n) : ratExp n 1 = n.log2 := by
+  have h : 2 ^ n.log2 ≤ n := Nat.log2_self_le (by omega)
+  simp [ratExp, log2_one, h]
+
+theorem decode_bits {k q : ℕ} (hk1 : 1 ≤ k) (hk2 : k ≤ 254) (hq1 : 2 ^ 23 ≤ q) (hq2 : q < 2 ^ 24) :
+    decode (UInt32.ofNat (k * 2 ^ 23 + (q - 2 ^ 23))) = some (q, (k : ℤ) - 150) := by
+  have e23 : (2 : ℕ) ^ 23 = 8388608 := by norm_num
+  have e24 : (2 : ℕ) ^ 24 = 16777216 := by norm_num
+  rw [e23] at hq1 ⊢; rw [e24] at hq2
+  generalize hN : k * 8388608 + (q - 8388608) = N
+  have hlt : N < UInt32.size := by simp only [UInt32.size]; omega
+  have h0 : N ≠ 0 := by omega
+  have h1 : N / 8388608 = k := by omega
+  have h2 : N % 8388608 = q - 8388608 := by omega
+  have h3 : ¬ (k = 0 ∨ k ≥ 255) := by omega
+  unfold decode
+  simp only [UInt32.toNat_ofNat_of_lt' hlt, e23, h1, h2, if_neg h0, if_neg h3]
+  simp only [Option.some.injEq, Prod.mk.injEq, and_true]
+  omega
+
+/-- A packed normal number decodes to its significand and exponent. -/
+theorem decode_pack {q : ℕ} {e : ℤ} (hq1 : 2 ^ 23 ≤ q) (hq2 : q < 2 ^ 24)
+    (he1 : -126 ≤ e) (he2 : e ≤ 127) : decode (pack q e) = some (q, e - 23) := by
+  obtain ⟨k, hk⟩ : ∃ k : ℕ, e + 127 = k := ⟨(e + 127).toNat, by omega⟩
+  have hqne : q ≠ 2 ^ 24 := by omega
+  have hrange : ¬ ((k : ℤ) ≤ 0 ∨ (k : ℤ) ≥ 255) := by omega
+  simp only [pack, if_neg hqne, hk, Int.toNat_natCast, if_neg hrange]
+  rw [decode_bits (by omega) (by omega) hq1 hq2]
+  simp only [Option.some.injEq, Prod.mk.injEq, true_and]
+  omega
+
+theorem rnd_one (m : ℕ) : rnd m 1 = m := by
+  simp [rnd, Nat.mod_one]
+
+theorem log2_le_23 {n : ℕ} (h0 : 0 < n) (h : n < 2 ^ 24) : n.log2 ≤ 23 := by
+  have := (Nat.log2_lt (n := n) (k := 24) (by omega)).mpr h
+  omega
+
+/-- Normalised significand of `n`: `2^23 ≤ n * 2^(23 - log2 n) < 2^24`. -/
+theorem norm_sig_bounds {n : ℕ} (h0 : 0 < n) (h : n < 2 ^ 24) :
+    2 ^ 23 ≤ n * 2 ^ (23 - n.log2) ∧ n * 2 ^ (23 - n.log2) < 2 ^ 24 := by
+  have hl := log2_le_23 h0 h
+  have h1 : 2 ^ n.log2 ≤ n := Nat.log2_self_le (by omega)
+  have h2 : n < 2 ^ (n.log2 + 1) := Nat.lt_log2_self
+  have hp : 0 < 2 ^ (23 - n.log2) := Nat.pow_pos (by omega)
+  constructor
+  · calc 2 ^ 23 = 2 ^ (n.log2 + (23 - n.log2)) := by congr 1; omega
+      _ = 2 ^ n.log2 * 2 ^ (23 - n.log2) := Nat.pow_add _ _ _
+      _ ≤ n * 2 ^ (23 - n.log2) := Nat.mul_le_mul_right _ h1
+  · calc n * 2 ^ (23 - n.log2) < 2 ^ (n.log2 + 1) * 2 ^ (23 - n.log2) :=
+          Nat.mul_lt_mul_of_pos_right h2 hp
+      _ = 2 ^ (n.log2 + 1 + (23 - n.log2)) := (Nat.pow_add _ _ _).symm
+      _ = 2 ^ 24 := by congr 1; omega
+
+theorem ofNat_eq_pack {n : ℕ} (h0 : 0 < n) (h : n < 2 ^ 24) :
+    ofNat n = pack (n * 2 ^ (23 - n.log2)) n.log2 := by
+  have hl := log2_le_23 h0 h
+  have hsh : (23 : ℤ) - (n.log2 : ℤ) ≥ 0 := by omega
+  have ht : ((23 : ℤ) - (n.log2 : ℤ)).toNat = 23 - n.log2 := by omega
+  unfold ofNat
+  rw [roundRat_of_pos h0 (by omega), ratExp_one h0]
+  simp only [scN, scD, if_pos hsh, ht, rnd_one]
+
+theorem decode_ofNat {n : ℕ} (h0 : 0 < n) (h : n < 2 ^ 24) :
+    decode (ofNat n) = some (n * 2 ^ (23 - n.log2), -((23 - n.log2 : ℕ) : ℤ)) := by
+  have hl := log2_le_23 h0 h
+  obtain ⟨b1, b2⟩ := norm_sig_bounds h0 h
+  rw [ofNat_eq_pack h0 h, decode_pack b1 b2 (by omega) (by omega)]
+  simp only [Option.some.injEq, Prod.mk.injEq, true_and]
+  omega
+
+/-- F3. `(float) n` is exact for `0 < n < 2^24`: it decodes to `m * 2^(-s)` with `m = n * 2^s`. -/
+theorem ofNat_exact {n : ℕ} (h0 : 0 < n) (h : n < 2 ^ 24) :
+    ∃ m s : ℕ, decode (ofNat n) = some (m, -(s : ℤ)) ∧ m = n * 2 ^ s :=
+  ⟨_, _, decode_ofNat h0 h, rfl⟩
+
+theorem ofNat_zero : ofNat 0 = 0 := roundRat_zero_left 1
+
+theorem decode_zero : decode 0 = some (0, 0) := by decide
+
+/-! ### F4. Division of two exactly converted integers rounds the exact ratio once -/
+
+theorem div_ofNat {n u : ℕ} (h0 : 0 < n) (hu : 0 < u) (hn : n < 2 ^ 24) (hu' : u < 2 ^ 24) :
+    div (ofNat n) (ofNat u) = roundRat n u := by
+  have hln := log2_le_23 h0 hn
+  have hlu := log2_le_23 hu hu'
+  have hmb : u * 2 ^ (23 - u.log2) ≠ 0 :=
+    Nat.ne_of_gt (Nat.mul_pos hu (Nat.pow_pos (by omega)))
+  unfold div
+  rw [decode_ofNat h0 hn, decode_ofNat hu hu']
+  simp only [if_neg hmb]
+  by_cases hd : (-((23 - n.log2 : ℕ) : ℤ)) - (-((23 - u.log2 : ℕ) : ℤ)) ≥ 0
+  · rw [if_pos hd]
+    have ht : ((-((23 - n.log2 : ℕ) : ℤ)) - (-((23 - u.log2 : ℕ) : ℤ))).toNat
+        = n.log2 - u.log2 := by omega
+    have hs : 23 - n.log2 + (n.log2 - u.log2) = 23 - u.log2 := by omega
+    rw [ht, Nat.mul_assoc, ← Nat.pow_add, hs, Nat.mul_comm n, Nat.mul_comm u,
+      roundRat_scale (Nat.pow_pos (by omega))]
+  · rw [if_neg hd]
+    have ht : (-((-((23 - n.log2 : ℕ) : ℤ)) - (-((23 - u.log2 : ℕ) : ℤ)))).toNat
+        = u.log2 - n.log2 := by omega
+    have hs : 23 - u.log2 + (u.log2 - n.log2) = 23 - n.log2 := by omega
+    rw [ht, Nat.mul_assoc, ← Nat.pow_add, hs, Nat.mul_comm n, Nat.mul_comm u,
+      roundRat_scale (Nat.pow_pos (by omega))]
+
+theorem div_ofNat_zero {u : ℕ} (hu : 0 < u) (hu' : u < 2 ^ 24) :
+    div (ofNat 0) (ofNat u) = 0 := by
+  have hmb : u * 2 ^ (23 - u.log2) ≠ 0 :=
+    Nat.ne_of_gt (Nat.mul_pos hu (Nat.pow_pos (by omega)))
+  unfold div
+  rw [ofNat_zero, decode_zero, decode_ofNat hu hu']
+  simp only [if_neg hmb]
+  have hd : (0 : ℤ) - (-((23 - u.log2 : ℕ) : ℤ)) ≥ 0 := by omega
+  rw [if_pos hd, Nat.zero_mul, roundRat_zero_left]
 
 end GambitV.F32
